@@ -34,6 +34,26 @@ theorem setFlags_self (n : DNode) : n.setFlags n.flags = n := by cases n <;> rfl
 theorem setDflt_self (n : DNode) : n.setDflt n.flags.dflt = n := by cases n <;> rfl
 theorem setKids_self (n : DNode) : n.setKids n.kids = n := by cases n <;> rfl
 
+/-! ## the executable structural equality of the base -/
+
+theorem Flags.beq_refl (f : Flags) : (f == f) = true := by
+  cases f with
+  | mk a b c => cases a <;> cases b <;> cases c <;> decide
+
+mutual
+theorem DNode.beq_refl : ∀ n : DNode, n.beq n = true
+  | .term .. => by simp [DNode.beq, Flags.beq_refl]
+  | .inner _ _ _ ks => by simp [DNode.beq, beqL_refl ks, Flags.beq_refl]
+theorem beqL_refl : ∀ l : List DNode, beqL l l = true
+  | [] => by simp [beqL]
+  | n :: ns => by simp [beqL, DNode.beq_refl n, beqL_refl ns]
+end
+
+theorem ne_of_beqL_false {a b : List DNode} (h : beqL a b = false) : a ≠ b := by
+  intro e
+  rw [e, beqL_refl] at h
+  exact absurd h (by simp)
+
 /-! ## node-wise relabelling of flags and metadata -/
 
 mutual
